@@ -539,6 +539,15 @@ func runReader(tb ev.TB, c readerCase) (labels []string, nontrivial bool) {
 			err := r.CommitMessages(ctx, fetched[len(fetched)-1])
 			blockedDone <- result{err, time.Since(eventAt)}
 		}()
+	case "setoffset-loop":
+		// the application keeps repositioning the reader (every SetOffset restarts the partition reader) while Close arrives
+		go func() {
+			var err error
+			for i := 0; err == nil && ctx.Err() == nil && i < 200000; i++ {
+				err = r.SetOffset(int64(i % (c.Records + 1)))
+			}
+			blockedDone <- result{err, time.Since(eventAt)}
+		}()
 	case "commit-flood":
 		// interval commits are only queued: the application goes on committing while the commit loop sits in a request the
 		// coordinator does not answer, until the queue (QueueCapacity) is full and CommitMessages itself blocks
@@ -759,7 +768,15 @@ func TestReaderClose(t *testing.T) {
 		if c.FetchFirst > c.Records*2 {
 			c.FetchFirst = c.Records * 2
 		}
-		if rapid.IntRange(0, 7).Draw(t, "commitFlood") == 0 {
+		if rapid.IntRange(0, 7).Draw(t, "setOffsetLoop") == 0 {
+			// Close while the application keeps calling SetOffset (plain reader)
+			c.Group, c.Blocked, c.Event, c.CloseDuring = false, "setoffset-loop", "close", ""
+			c.BrokerState = rapid.SampledFrom([]string{"normal", "normal", "slow"}).Draw(t, "solBroker")
+			if c.Records < 3 {
+				c.Records = 3
+			}
+			c.DelayUs = rapid.SampledFrom([]int{500, 2000, 30000}).Draw(t, "solDelayUs")
+		} else if rapid.IntRange(0, 7).Draw(t, "commitFlood") == 0 {
 			// CommitMessages blocked on a full commit queue (interval mode) when its context ends
 			c.Group, c.Blocked, c.BrokerState, c.CloseDuring = true, "commit-flood", "stall-commit", ""
 			c.Event = rapid.SampledFrom([]string{"cancel", "cancel", "cancel", "close"}).Draw(t, "cfEvent")
@@ -770,7 +787,7 @@ func TestReaderClose(t *testing.T) {
 			c.FetchFirst = rapid.IntRange(1, 2).Draw(t, "cfFetchFirst")
 			c.DelayUs = rapid.SampledFrom([]int{150000, 300000}).Draw(t, "cfDelayUs")
 		}
-		if c.Blocked != "commit-flood" && rapid.IntRange(0, 9).Draw(t, "fullQueueThenError") == 0 {
+		if c.Blocked != "commit-flood" && c.Blocked != "setoffset-loop" && rapid.IntRange(0, 9).Draw(t, "fullQueueThenError") == 0 {
 			// a lagging application: the queue is full to the last slot when the partition reader has an error to report
 			c.Group, c.Blocked, c.Event, c.BrokerState, c.CloseDuring = false, "none", rapid.SampledFrom([]string{"close", "cancel"}).Draw(t, "fqEvent"), "error-fetch", ""
 			c.QueueCap = rapid.IntRange(1, 4).Draw(t, "queueCap")
@@ -778,7 +795,7 @@ func TestReaderClose(t *testing.T) {
 			c.Records = c.QueueCap + c.FetchFirst
 			c.DelayUs = 450000
 		}
-		if c.QueueCap == 0 && c.Blocked != "commit-flood" && rapid.IntRange(0, 9).Draw(t, "futureCodec") == 0 {
+		if c.QueueCap == 0 && c.Blocked != "commit-flood" && c.Blocked != "setoffset-loop" && rapid.IntRange(0, 9).Draw(t, "futureCodec") == 0 {
 			c.FutureCodec, c.Group, c.Blocked, c.Event, c.BrokerState, c.CloseDuring = true, false, "none", "close", "normal", ""
 			c.DelayUs = rapid.SampledFrom([]int{2000, 30000, 100000}).Draw(t, "fcDelayUs")
 		}
